@@ -233,6 +233,8 @@ impl ProtocolState {
 
 //@fn gneiss-mqtt/src/protocol.rs complete_operation_with_result props=C01 stub
     requires options_untaken(Some(*old(operation_options))),
+        // the body unwraps the result for subscribe / unsubscribe operations: "no acknowledgement" is only ever passed for publishes
+        (*old(operation_options) is Subscribe || *old(operation_options) is Unsubscribe) ==> completion_result is Some,
     ensures
         // assumed here, proved by E-K (harnesses cwr_*): the one-shot handler is invoked exactly once iff Ok
         r is Ok <==> resp_kind_matches(*old(operation_options), completion_result),
@@ -2112,6 +2114,70 @@ impl InboundAliasResolver {
 //@end
 }
 
+// ---- W9 at CONNACK: counting the operations that take part in the one-at-a-time drain
+pub open spec fn is_marked(m: Map<u64, ClientOperation>) -> spec_fn(u64) -> bool { |k: u64| m[k].slow_start_ack_value != 0 }
+
+// sum of the slow-start weights of the first n keys of an enumeration
+pub open spec fn marked_prefix(m: Map<u64, ClientOperation>, s: Seq<u64>, n: int) -> int
+    decreases n
+{
+    if n <= 0 { 0 } else { marked_prefix(m, s, n - 1) + m[s[n - 1]].slow_start_ack_value as int }
+}
+
+pub proof fn lemma_marked_prefix(m: Map<u64, ClientOperation>, s: Seq<u64>, n: int)
+    requires 0 <= n <= s.len(), s.no_duplicates(),
+        forall|i: int| 0 <= i < s.len() ==> m.contains_key(#[trigger] s[i]) && m[s[i]].slow_start_ack_value <= 1,
+    ensures marked_prefix(m, s, n) == s.take(n).to_set().filter(is_marked(m)).len(), 0 <= marked_prefix(m, s, n) <= n,
+    decreases n
+{
+    if n > 0 {
+        lemma_marked_prefix(m, s, n - 1);
+        let sa = s.take(n - 1);
+        let sb = s.take(n);
+        let a = sa.to_set();
+        let b = sb.to_set();
+        let x = s[n - 1];
+        assert(sb =~= sa.push(x));
+        assert(b =~= a.insert(x)) by {
+            assert forall|k: u64| b.contains(k) <==> a.insert(x).contains(k) by {
+                if sb.contains(k) { let i = choose|i: int| 0 <= i < sb.len() && sb[i] == k; if i < n - 1 { assert(sa[i] == k); } }
+                if sa.contains(k) { let i = choose|i: int| 0 <= i < sa.len() && sa[i] == k; assert(sb[i] == k); }
+                assert(sb[n - 1] == x);
+            }
+        }
+        assert(!a.contains(x)) by { if sa.contains(x) { let i = choose|i: int| 0 <= i < sa.len() && sa[i] == x; assert(s[i] == s[n - 1]); } }
+        let f = is_marked(m);
+        assert(f(x) == (m[x].slow_start_ack_value != 0));
+        if m[x].slow_start_ack_value != 0 {
+            assert(b.filter(f) =~= a.filter(f).insert(x));
+            assert(!a.filter(f).contains(x));
+            assert(b.filter(f).len() == a.filter(f).len() + 1);
+        } else { assert(b.filter(f) =~= a.filter(f)); }
+    } else {
+        assert(s.take(0).to_set() =~= Set::<u64>::empty());
+        assert(s.take(0).to_set().filter(is_marked(m)) =~= Set::<u64>::empty());
+    }
+}
+
+// once the enumeration of the keys is complete the running sum is the number of marked operations (W9)
+pub proof fn lemma_marked_all(s: ProtocolState, refs: Seq<&u64>, idx: int)
+    requires s.wf_tables(), refs.no_duplicates(), refs.unref().to_set() == s.operations@.dom(), 0 <= idx <= refs.len(),
+    ensures idx == refs.len() ==> marked_prefix(s.operations@, refs.unref(), idx) == s.ss_set().len(),
+{
+    let ks = refs.unref();
+    if idx == ks.len() {
+        assert(ks.no_duplicates()) by {
+            assert forall|i: int, j: int| 0 <= i < ks.len() && 0 <= j < ks.len() && i != j implies ks[i] != ks[j] by { assert(refs[i] != refs[j]); }
+        }
+        assert forall|i: int| 0 <= i < ks.len() implies s.operations@.contains_key(#[trigger] ks[i]) && s.operations@[ks[i]].slow_start_ack_value <= 1 by {
+            assert(ks.to_set().contains(ks[i])); assert(op_wf(s.operations@[ks[i]]));
+        }
+        lemma_marked_prefix(s.operations@, ks, ks.len() as int);
+        assert(ks.take(ks.len() as int) =~= ks);
+        assert(s.ss_set() =~= ks.to_set().filter(is_marked(s.operations@)));
+    }
+}
+
 // ---- CONNACK session handling (C04, C05, C06, C10, C15)
 pub open spec fn handshake_quiet(s: ProtocolState) -> bool {
     &&& s.high_priority_operation_queue@.len() == 0
@@ -2209,10 +2275,35 @@ impl ProtocolState {
         r is Ok ==> (old(self).cur_ok() ==> final(self).cur_ok()),
 //@end
 
-//@fn gneiss-mqtt/src/protocol.rs ProtocolState::initialize_slow_start stub
+//@fn gneiss-mqtt/src/protocol.rs ProtocolState::initialize_slow_start props=C09,C11
     requires old(self).wf_tables(), old(self).state == ProtocolStateType::Connected,
+        // A-OPS: fewer than 2^32 operations are tracked at once (the counter is a u32)
+        old(self).operations@.len() < u32::MAX,
     ensures final(self).wf_core(),
         *final(self) == (ProtocolState { slow_start_ack_count: final(self).slow_start_ack_count, ..*old(self) }),
+//@@loop 0 iter=it
+            invariant *self == *old(self), self.wf_tables(),
+                it.seq().unref().to_set() == self.operations@.dom(), it.seq().no_duplicates(), it.seq().len() == self.operations@.len(),
+                slow_start_ack_count as int == marked_prefix(self.operations@, it.seq().unref(), it.index@ as int),
+                slow_start_ack_count as int <= it.index@,
+                self.operations@.len() < u32::MAX,
+                // the enumeration is the whole key set, once each: at the end the sum of the 0/1 weights is the number of marked operations
+                it.index@ == it.seq().len() ==> slow_start_ack_count as nat == self.ss_set().len(),
+//@@at before "for id in it: self.operations.keys()"
+        proof {
+            if self.operations@.dom().len() == 0 { self.operations@.dom().lemma_len0_is_empty(); assert(self.ss_set() =~= Set::<u64>::empty()); }
+        }
+//@@at before "let operation = self.operations.get(id).unwrap();"
+            proof {
+                assert(it.seq().unref()[it.index@ as int] == *id);
+                assert(it.seq().unref().to_set().contains(*id));
+                assert(self.operations@.contains_key(*id));
+                assert(op_wf(self.operations@[*id]));
+            }
+//@@at after "slow_start_ack_count += operation.slow_start_ack_value;"
+            proof {
+                lemma_marked_all(*self, it.seq(), it.index@ + 1);
+            }
 //@end
 
 //@fn gneiss-mqtt/src/protocol.rs ProtocolState::apply_session_present_to_connection props=C04,C05,C06,C10,C15,C11,C01 desugar
@@ -2425,6 +2516,8 @@ impl ProtocolState {
 // what must be true of the engine when a CONNACK is accepted (A-HANDSHAKE; see apply_session_present_to_connection)
 pub open spec fn connack_ready(s: ProtocolState) -> bool {
     handshake_quiet(s) && resubmit_only_publishes(s) && bound_ops_queued(s)
+        // A-OPS: fewer than 2^32 operations tracked at once (the slow-start counter is a u32)
+        && s.operations@.len() < u32::MAX
 }
 
 impl ProtocolState {
